@@ -82,8 +82,8 @@ CHECKS = {
             'Exploration, exhaustive within the stated bound (all histories of up to 3/4 operations over 6 paths x 3 interfaces with all 18 pairs looked up after every step), plus random histories to 40 operations with calls and introspection through a fake peer; instance identity (which object answers) is checked, and the standard interfaces are removed / re-added as well.',
             'Trusted: the set model; fake peer and scheduler. Intermediate nodes without interfaces are not part of the compared set.', '7/C24'),
     'C25': ('model-based PBT over histories: a client folds GetManagedObjects + InterfacesAdded/Removed and is compared with the model after every step',
-            'Exploration over histories under one or two (disjoint) managers with a Ping barrier after every step; folded view == model objects with current property values.',
-            'Trusted: same-connection ordering makes the Ping reply a barrier for the signals before it. Nested managers are not generated.', '7/C25'),
+            'Exploration over histories under one or two managers (disjoint, or one below the other) with a Ping barrier after every step; folded view == model objects with current property values; with nested managers the folded view of each is compared with a fresh GetManagedObjects listing of that manager.',
+            'Trusted: same-connection ordering makes the Ping reply a barrier for the signals before it. With nested managers, what each manager lists is taken from the manager itself (no model of it is imposed).', '7/C25'),
     'C26': ('program-generating PBT: random #[interface] impls compiled against the library; a reference-built raw peer sends bursts of calls that are right or wrong in exactly one aspect; replies, errors, signals and handler invocations predicted from the generator\'s table under a harness-owned schedule',
             'Exploration over programs and inputs: per run one generated crate of 8 interfaces (~30 methods of all shapes); per case 1-3 registrations on a 5-path tree and 1-5 calls (valid / wrong path / interface / member / arguments, with and without the no-reply flag, both endiannesses); handler ran iff everything matches, with exactly the arguments sent; exactly one reply (none with the flag) carrying the predicted value with the declared signature, the handler\'s error, or the named standard error; emitted signals as declared; nothing else written.',
             'Trusted: generator table (Rust type -> signature / reference value), reference message builder / parser, harness scheduler. For an existing node without the interface either UnknownObject or UnknownInterface is accepted.', '7/C26'),
